@@ -34,6 +34,24 @@ func checkGenuine(cs *mon.Case, w *World, g *Genuine) (string, string) {
 		enc = base64.StdEncoding.EncodeToString(sim.DeflateStartingWithLT([]byte(xml)))
 	case 23:
 		enc = base64.StdEncoding.EncodeToString(sim.DeflateStoredSniff([]byte(xml), ' ', 0x3C))
+	case 11, 31:
+		// a trailing comment sized so that the message is exactly 8 (16, 32) times as long as its DEFLATE stream
+		m := []int{8, 16, 32}[(cs.Index/40)%3]
+		n := len(xml) + 64
+		for it := 0; it < 200; it++ {
+			padded := xml + "<!--" + strings.Repeat("p", n-len(xml)-7) + "-->"
+			comp := sim.Deflate([]byte(padded), 6)
+			if len(padded) == m*len(comp) {
+				xml, enc = padded, base64.StdEncoding.EncodeToString(comp)
+				cs.Note("padded to %d = %d x %d compressed bytes", len(padded), m, len(comp))
+				break
+			}
+			if it%2 == 0 && m*len(comp) > len(xml)+7 {
+				n = m * len(comp)
+			} else {
+				n += 1 + it/2
+			}
+		}
 	}
 	cs.Input([]byte(xml))
 	r := cs.Rand()
